@@ -157,6 +157,9 @@ def run(ctx):
                     others.append((f, n))
     for f, n in others:
         ctx.bad("R19.3", f, "dlclose-outside-deleter", "%s calls dlclose directly: the library can be unmapped while symbols or copies are alive" % short(f.qual), (f, n.get("ln")))
+    from .common import fx
+    g = fx(ctx, "close_directly")
+    ctx.fixture("R19.3", "close_directly", g is not None and any(n.get("name") == "dlclose" for _, _, e in g.roots() for n in dl_calls(e)), True, "dlclose outside a deleter recognised")
     if not others:
         ctx.ok("R19.3", "nitro::dl", "dlclose-only-in-deleters", "%d deleter bodies" % len(deleters), "-")
 
